@@ -55,12 +55,16 @@ inductive Inner where
   | cold (tl : TL Val)
   | inline (sigs : List Sig)
 
-/-- `"inners"`: the observables the mapper returns, by call ordinal (cyclic) -/
-def getInners (j : Json) : Except String (List Inner) := do
-  (← getArr j "inners").mapM fun x =>
-    match x with
-    | .arr a => do pure (.cold (← tlOfJson a.toList))
-    | .obj _ => do
+def innerOfJson (x : Json) : Except String Inner :=
+  match x with
+  | .arr a => do pure (.cold (← tlOfJson a.toList))
+  | .obj _ =>
+    match x.getObjValAs? Nat "timer" with
+    | .ok d =>
+      -- `reactivex.timer(d)` with no scheduler of its own: one action scheduled at subscription on the subscribe-time
+      -- scheduler, emitting 0 and completing at `d`
+      pure (.cold [(d, .next (.int 0)), (d, .completed)])
+    | .error _ => do
       match (← getStr x "inline") with
       | "B" => pure (.inline [.next])
       | "CS" => pure (.inline [.completed])
@@ -68,7 +72,11 @@ def getInners (j : Json) : Except String (List Inner) := do
       | "ES" => pure (.inline [.error "inlineErr"])
       | "RI" => pure (.inline [.next, .completed])
       | k => throw s!"bad inline kind {k}"
-    | _ => throw "bad inner observable"
+  | _ => throw "bad inner observable"
+
+/-- `"inners"`: the observables the mapper returns, by call ordinal (cyclic) -/
+def getInners (j : Json) : Except String (List Inner) := do
+  (← getArr j "inners").mapM innerOfJson
 
 def innerOf (inners : List Inner) (k : Nat) : Inner :=
   if inners.isEmpty then .cold [] else inners.getD (k % inners.length) (.cold [])
@@ -95,6 +103,17 @@ def elemInners (inners : List Inner) (off : Nat) (src : TL Val) : List (Nat × M
     match innerOf inners (p.2 + off) with
     | .cold tl => innerEvents (α := Val) (p.2 + off) p.1 tl
     | .inline _ => [])).flatten
+
+/-- `"echo": [k, ..]`: the consumer pushes `("echo", k)` into the source from inside on_next for its k-th element -/
+def getEcho (j : Json) : Nat → Option Val :=
+  match j.getObjValAs? (List Nat) "echo" with
+  | .ok ks => fun k => if ks.contains k then some (Val.tup [.str "echo", .int k]) else none
+  | .error _ => fun _ => none
+
+def hasEcho (j : Json) : Bool :=
+  match j.getObjValAs? (List Nat) "echo" with
+  | .ok (_ :: _) => true
+  | _ => false
 
 def handle1 (op : String) (j : Json) : Except String Json := do
   let sub ← getNat j "sub"
@@ -144,6 +163,8 @@ def handle1 (op : String) (j : Json) : Except String Json := do
   -- C16
   | "throttle_first" =>
     let w ← getNat j "d"
+    if hasEcho j && w > 0 then
+      return Json.mkObj [("run", tlToJson (tfRunFb w (getEcho j) 0 none src))]
     pure (both3 (throttleFirst w sub src) (if w = 0 then [(sub, .error "ValueError")] else tfSpec w src)
       (if w = 0 then none else some (simStart (tfOp w) (fun _ => []) sub none none src)))
   | "debounce" =>
@@ -157,6 +178,8 @@ def handle1 (op : String) (j : Json) : Except String Json := do
         let sk ← getStr oj "src"
         pure (samplerEvents (seen sk sub (← tlOfJson (← getArr oj "msgs"))), isCold && sk == "hot")
       | _ => do pure (intervalTicks sub (← getNat j "period") (← getNat j "stop"), false)
+    if hasEcho j then
+      return Json.mkObj [("run", tlToJson (sampSimFb (getEcho j) (fun v => match v with | .tup (.str "echo" :: _) => true | _ => false) 0 (mergeStable (sampSrcItems src ++ sampTickItems ticks)) true {}))]
     let q := if tf then mergeStable (sampTickItems ticks ++ sampSrcItems src) else mergeStable (sampSrcItems src ++ sampTickItems ticks)
     pure (both3 (sampRun tf {} src ticks) (sampSpec tf none src ticks) (some (sampSim q true {})))
   -- C15
@@ -207,7 +230,8 @@ def handle1 (op : String) (j : Json) : Except String Json := do
     let raises ← getRaises j
     let first : List (Nat × MEv Val) :=
       match j.getObjVal? "first" with
-      | .ok (.arr a) => (match tlOfJson a.toList with | .ok tl => innerEvents 0 sub tl | .error _ => [])
+      | .ok .null => []
+      | .ok fj => (match innerOfJson fj with | .ok (.cold tl) => innerEvents 0 sub tl | _ => [])
       | _ => []
     let other : Nat → TL Val ←
       match j.getObjVal? "other" with
